@@ -5,19 +5,18 @@ sys.path.insert(0, os.path.dirname(os.path.abspath(__file__)))
 from common import *
 
 ID = 'C02'
-THOROUGH_IS_QUICK = True     # the deeper bounds below were not run clean on the unchanged tree within the session (9-minute cap); the thorough command runs the quick bounds
 PKG = 'version'
 V = MOD + '/version.'
 ROOTS = [V + n for n in ('VerifC02Laws', 'VerifC02Less', 'VerifC02Sort3', 'VerifC02Sort4')]
 ALPH = b'ABCDEFGHIJKLMNOPQRSTUVWXYZabcdefghijklmnopqrstuvwxyz0123456789.+~:-'
-BOUNDS = {'quick': dict(U=2, R=1, K=3, SU=2, SR=0), 'thorough': dict(U=2, R=1, K=4, SU=2, SR=1, U3=3, R2=2)}
+BOUNDS = {'quick': dict(U=2, R=1, K=3, SU=2, SR=0), 'thorough': dict(U=2, R=1, K=3, SU=2, SR=1, U3=3, R2=2)}
 JOB_TIMEOUT_S = {'quick': 300, 'thorough': 1200}
 META = dict(
     functions_encoded=['version.Compare', 'version.verrevcmp', 'version.order', 'version.cisdigit', 'version.cisalpha', 'version.Slice.Len', 'version.Slice.Swap',
                        'version.Slice.Less/Len/Swap', 'sort.Sort', 'sort.pdqsort (insertion-sort path)', 'sort.insertionSort'],
     stubs=['math/bits.Len (concrete)'],
     bounds={'quick': 'laws (also on digit runs beyond 64 bits: 1-2 symbolic digits in front of a shared 18-19 digit tail); any 64-bit epochs, upstream <= 2, revision <= 1 characters over [A-Za-z0-9.+~:-] for each of a, b, c (all length tuples); the sort adapter (Less, Len, Swap) against Compare on every pair within the same bounds; sort: slices of 3 versions with upstream length <= 2 (all elements the same length), no revision, any epochs',
-            'thorough': 'laws: as quick (upstream <= 2, revision <= 1, all 216 length triples), plus upstream = 3 (revision <= 1) and revision = 2 (upstream <= 2) for triples whose three members have the same shape; Less against Compare: upstream <= 3, revision <= 2, all 144 pair shapes; sort: slices of 4 versions, upstream <= 2, revision <= 1 (and of 3)'},
+            'thorough': 'laws: as quick (upstream <= 2, revision <= 1, all 216 length triples), plus upstream = 3 (revision <= 1) and revision = 2 (upstream <= 2) for triples whose three members have the same shape; Less against Compare: upstream <= 3, revision <= 2, all 144 pair shapes; sort: slices of 3 versions, upstream <= 2, revision <= 1 (slices of 4 versions went over 20 minutes of CPU per job and are not registered)'},
     outside_claim=['longer components', 'slices of more than 12 elements (pdqsort partitioning / heapsort paths are stdlib code whose contract - correct for any strict weak order - is trusted; the laws are that contract\'s precondition)'],
     assumptions=['sortedness is judged by the reference order (harness specCompare), the permutation property by field-wise equality'])
 
